@@ -16,6 +16,12 @@ LEAVES = [
     # AsyncZeroconf.async_close waits for start-up only when not already done
     ("Shutdown", "close_waits_for_start", "asyncio.py", "AsyncZeroconf.async_close", ("if", "self.zeroconf.done", 0),
      [P("self.zeroconf.done", "done", "bool")], "bool", {}),
+    # ... and that wait swallows both its own timeout and the NotRunningException of a close that was overtaken by another
+    # one during start-up (fix 25230c1, D17): membership of the `contextlib.suppress(...)` argument tuple
+    ("Shutdown", "close_wait_suppresses_timeout", "asyncio.py", "AsyncZeroconf.async_close", ("call_has_arg", "contextlib.suppress", "asyncio.TimeoutError", 0),
+     [], "bool", {}),
+    ("Shutdown", "close_wait_suppresses_not_running", "asyncio.py", "AsyncZeroconf.async_close", ("call_has_arg", "contextlib.suppress", "NotRunningException", 0),
+     [], "bool", {}),
     # async_wait_for_start raises NotRunningException at once when done
     ("Shutdown", "wait_for_start_raises", "_core.py", "Zeroconf.async_wait_for_start", ("if", "self.done", 0),
      [P("self.done", "done", "bool")], "bool", {}),
